@@ -87,7 +87,8 @@ class Reporter:
                 if lines < self.MAX_LINES:
                     print(f'VIOLATION property={self.prop} replay={p}')
                     lines += 1
-            print(f'  -> {what}  [x{count}] signature={jdump(sig)}')
+            if lines <= self.MAX_LINES:
+                print(f'  -> {what}  [x{count}] signature={jdump(sig)}')
         ev = {
             'property_id': self.prop, 'tier': self.tier, 'seed': seed(), 'level': level,
             'coverage': coverage, 'assumptions': list(assumptions),
